@@ -212,6 +212,7 @@ func freshState(k *kase) *account.AccountDB {
 }
 
 var bumpRootCache = map[string]string{}
+var root0Cache = map[string]string{}
 
 // rootAfterNonceBump is the state root of the case's initial state with only the
 // creator's nonce incremented (what a failed top-level Create may legitimately leave).
@@ -231,7 +232,12 @@ func execute(k *kase) obs {
 	var o obs
 	switch k.Entry {
 	case "precompile":
-		p := vm.PrecompiledContracts[common.BytesToAddress([]byte{byte(k.Pre)})]
+		var pa common.Address
+		pa[19] = byte(k.Pre)
+		p, okp := vm.PrecompiledContracts[pa]
+		if !okp {
+			panic(fmt.Sprintf("harness: no precompile %d", k.Pre))
+		}
 		in := unhex(k.Input)
 		var ret []byte
 		var left uint64
@@ -246,7 +252,20 @@ func execute(k *kase) obs {
 		return probe(k)
 	}
 	st := freshState(k)
-	o.Root0 = st.IntermediateRoot(true).Hex()
+	// the root of the prepared state depends only on (entry kind, address, code); it is hashed once per such key
+	rk := k.Entry
+	if k.Entry != "create" {
+		rk = "x|" + k.Self + "|" + k.Code
+	}
+	if r0, ok := root0Cache[rk]; ok {
+		o.Root0 = r0
+	} else {
+		o.Root0 = st.IntermediateRoot(true).Hex()
+		if len(root0Cache) > 2048 {
+			root0Cache = map[string]string{}
+		}
+		root0Cache[rk] = o.Root0
+	}
 	evm := node.NewEVM(st, origin, forkHeight(k.Fork), k.Gas)
 	var (
 		ret  []byte
@@ -474,6 +493,15 @@ func judge(k *kase, o obs) []finding {
 				add("C11:call-depth-exceeds-1024:"+k.Note, fmt.Sprintf("nested %s reached frame depth %d (>1024 below the top-level frame)", k.Note, d))
 			}
 		}
+	case "inner-create-value":
+		if !failed && len(o.Ret) == 96 {
+			b1 := new(big.Int).SetBytes(o.Ret[0:32])
+			res := new(big.Int).SetBytes(o.Ret[32:64])
+			b2 := new(big.Int).SetBytes(o.Ret[64:96])
+			if res.Sign() == 0 && b1.Cmp(b2) != 0 {
+				add("C11:fail-state-not-reverted:CREATE-opcode", fmt.Sprintf("CREATE returned 0 (failed) but the creator's balance went from %s to %s: the failed frame's value transfer was not reverted (%s)", b1, b2, k.Note))
+			}
+		}
 	case "depth-logs":
 		if o.NLogs > 1025 {
 			add("C11:call-depth-exceeds-1024:"+k.Note, fmt.Sprintf("nested %s ran %d frames (>1025 including the top-level frame)", k.Note, o.NLogs))
@@ -544,6 +572,30 @@ func probe(k *kase) obs {
 	return o
 }
 
+// gasFnName names the dynamic-gas function of an operation independent of the closure
+// numbering of the compiler: "vm.memoryCopierGas", "vm.makeGasLog", "vm.gasSha3", ...
+func gasFnName(oi vm.VerifOpInfo) string {
+	fn := oi.DynGasFn
+	if fn == "" {
+		return "no-dynamic-gas:" + oi.Name
+	}
+	if i := strings.LastIndex(fn, "/"); i >= 0 {
+		fn = fn[i+1:]
+	}
+	parts := strings.Split(fn, ".")
+	last := ""
+	for _, p := range parts[1:] {
+		isClosure := strings.HasPrefix(p, "func") && len(p) > 4 && strings.Trim(p[4:], "0123456789") == ""
+		if !isClosure {
+			last = p
+		}
+	}
+	if last == "" {
+		return fn
+	}
+	return parts[0] + "." + last
+}
+
 func judgeProbe(k *kase, o obs) []finding {
 	if o.Status != "ok" {
 		return nil
@@ -558,13 +610,7 @@ func judgeProbe(k *kase, o obs) []finding {
 		return nil
 	}
 	oi := opInfo[k.Fork][vm.OpCode(k.Op)]
-	fn := oi.DynGasFn
-	if i := strings.LastIndex(fn, "/"); i >= 0 {
-		fn = fn[i+1:]
-	}
-	if fn == "" {
-		fn = "no-dynamic-gas:" + oi.Name
-	}
+	fn := gasFnName(oi)
 	return []finding{{"C11:memory-growth-undercharged:" + fn, k.Part,
 		fmt.Sprintf("%s with stack %v (memory %d B) would grow memory to %d bytes (%d words) for a dynamic gas of %d, below 3*dw + d(w^2/512) = %s; the interpreter then calls Memory.Resize(%d)",
 			oi.Name, k.Stack, k.MemLen, o.MemSize, nw, o.DynGas, need, o.MemSize)}}
@@ -841,14 +887,15 @@ func run(c *fw.Ctx) {
 var gasSet = []uint64{0, 1, 2300, 100000, 10000000}
 
 func (r *runner) codeCase(code []byte, forks []string, entries []string, gases []uint64, part string) {
+	if !r.mine() { // one code string (all its gas/entry/fork variants) = one unit of sharding
+		return
+	}
 	for _, f := range forks {
 		for _, e := range entries {
 			for _, g := range gases {
-				if !r.mine() {
-					if r.stop {
-						return
-					}
-					continue
+				if r.c.Expired() {
+					r.stop = true
+					return
 				}
 				k := &kase{Part: part, Fork: f, Entry: e, Code: hx(code), Gas: g}
 				r.run(k)
@@ -955,14 +1002,15 @@ func (r *runner) partOps() {
 			}
 			entries := []string{"call", "static"}
 			emit := func(args []*big.Int) bool {
+				if !r.mine() { // one operand tuple (all its memory/address/entry variants) = one unit of sharding
+					return !r.stop
+				}
 				for _, mem32 := range []bool{false, true} {
 					for _, self := range selfs {
 						for _, e := range entries {
-							if !r.mine() {
-								if r.stop {
-									return false
-								}
-								continue
+							if r.c.Expired() {
+								r.stop = true
+								return false
 							}
 							code := sandwich(oi, args, mem32, nil)
 							k := &kase{Part: "op", Fork: f, Entry: e, Self: self, Code: hx(code), Gas: 10000000,
@@ -1205,11 +1253,19 @@ func (r *runner) sample(k kase) {
 func (r *runner) partCreate() {
 	forks := []string{forkA, forkB}
 	each := func(init []byte) {
+		if !r.mine() { // one init code = one unit of sharding
+			return
+		}
 		for _, f := range forks {
-			for _, g := range gasSet {
-				if !r.mine() {
-					continue
+			gs, ogs := gasSet, []uint64{100000, 10000000}
+			if !r.c.Thorough() { // quick: full gas set on the all-on table only
+				if f == forkB {
+					gs, ogs = []uint64{100000}, nil
+				} else {
+					ogs = []uint64{10000000}
 				}
+			}
+			for _, g := range gs {
 				r.run(&kase{Part: "create", Fork: f, Entry: "create", Code: hx(init), Gas: g})
 				if len(init) > 0 {
 					r.nontriv++
@@ -1217,10 +1273,7 @@ func (r *runner) partCreate() {
 			}
 			// through the CREATE and CREATE2 opcodes of a deployed contract
 			for _, op := range []vm.OpCode{vm.CREATE, vm.CREATE2} {
-				for _, g := range []uint64{100000, 10000000} {
-					if !r.mine() {
-						continue
-					}
+				for _, g := range ogs {
 					oi := opInfo[f][op]
 					pre := asm.New().PushN(2, init).Push(0).Op(vm.MSTORE).Bytes()
 					if len(init) == 0 {
@@ -1267,6 +1320,31 @@ func (r *runner) partCreate() {
 					Note: fmt.Sprintf("init code returning %d bytes", n)})
 				r.nontriv++
 			}
+		}
+	}
+	// the same through the CREATE opcode with an endowment: SELFBALANCE; CREATE(5, init); SELFBALANCE; return (b1, result, b2)
+	for _, f := range forks {
+		init := asm.New().Push(1).Push(0).Op(vm.RETURN).Bytes() // 5 bytes
+		p := asm.New().PushN(5, init).Push(0).Op(vm.MSTORE)
+		p.Op(vm.SELFBALANCE)
+		p.Push(5).Push(27).Push(5).Op(vm.CREATE)
+		p.Op(vm.SELFBALANCE)
+		p.Push(0x40).Op(vm.MSTORE).Push(0x20).Op(vm.MSTORE).Push(0x00).Op(vm.MSTORE)
+		p.Push(0x60).Push(0).Op(vm.RETURN)
+		code := p.Bytes()
+		mag := uint64(1)
+		if f == forkA {
+			mag = common.GasMagnification
+		}
+		lo := vm.CreateGas * mag
+		hi := lo + (vm.CreateDataGas+400)*mag*65/64 + 200*mag
+		for g := lo; g <= hi && !r.stop; g++ {
+			if !r.mine() {
+				continue
+			}
+			r.run(&kase{Part: "create", Fork: f, Entry: "call", Code: hx(code), Gas: g, Expect: "inner-create-value", Op: int(vm.CREATE),
+				Note: "CREATE with endowment 5 of init code returning 1 byte"})
+			r.nontriv++
 		}
 	}
 	r.sample(kase{Part: "create", Fork: forkB, Entry: "create", Code: "60016000f3", Gas: 100, Value: "5", Note: "init code returning 1 bytes"})
@@ -1595,6 +1673,7 @@ func (r *runner) tune(f string, oi vm.VerifOpInfo, pp pairPos, off uint64) {
 		return
 	}
 	r.c.Outcome("gasfn/cheap-huge-growth:" + oi.Name)
+	dbg("tune fork=%s %s: stack %v dyngas=%d memsize=%d", f, oi.Name, best.Stack, bo.DynGas, bo.MemSize)
 	if oi.Op == vm.CREATE2 || oi.Op == vm.SHA3 || oi.Halts || oi.Reverts {
 		return // confirmation by execution only for operations that merely copy/log
 	}
@@ -1622,6 +1701,7 @@ func (r *runner) bomb(k *kase) {
 	ck := &kase{Part: "gasfn", Fork: k.Fork, Entry: "call", Code: hx(p.Bytes()), Gas: 1000000, Note: k.Note}
 	o, fatal, err := runChild(r.c, ck)
 	r.c.Eval(1)
+	dbg("bomb %s code=%s -> obs=%+v fatal=%q err=%v", k.Note, ck.Code, o, fatal, err)
 	if err != nil {
 		r.c.Note("bomb_child_infra", err.Error())
 		r.c.Outcome("gasfn/bomb:infra")
@@ -1635,10 +1715,7 @@ func (r *runner) bomb(k *kase) {
 			return
 		}
 		r.c.Outcome("gasfn/bomb:fatal")
-		fn := oi.DynGasFn
-		if i := strings.LastIndex(fn, "/"); i >= 0 {
-			fn = fn[i+1:]
-		}
+		fn := gasFnName(oi)
 		r.c.Violation("C11:memory-growth-undercharged:"+fn, "gasfn",
 			fmt.Sprintf("executed with gas limit 10^6 in a child process limited to %d GiB of address space: the node process died with %q while running %s (code %s); expected an ordinary out-of-gas failure",
 				childAS>>30, fatal, k.Note, ck.Code), k)
